@@ -202,4 +202,86 @@ def build(src):
         "std::getline(stream, element, ';') yields the ';'-separated pieces in order and no final empty piece (ogetline stub); std::vector::push_back/clear/operator= as the standard says",
         "the 30 environment words of a toggle are fixed in the contract from the documented vocabulary; every other string literal the code compares with is a different word",
     ]
+    # ------------------------------------------------------------------ layer 3: parser
+    P3 = ["C01", "C02", "C04", "C12"]
+    K = 2       # declarations per kind (DESIGN.md 4.1); arrays in key order
+    it_rules = [Rule("D3.iterator-deref", r"\*it\b", "(*it_ref)"), Rule("D3.iterator-arrow", r"\bit->", "(*it_ref)->"),
+                Rule("D3.iterator-next", r"\bit \+ 1\b", "(*it_ref) + 1"), Rule("D3.iterator-inc", r"\+\+it\b", "++(*it_ref)")]
+    tok_calls = [Rule("D6.token-call", r"\(\*it_ref\)->(is_short|has_value|is_value|is_double_dash|is_named)\(\)", r"ui_\1((*it_ref))"),
+                 Rule("D6.token-call", r"\bnext->(is_value)\(\)", r"ui_\1(next)"),
+                 Rule("D6.token-call", r"\bin\.(is_short)\(\)", r"ui_\1(in)"),
+                 Rule("D6.short-total", r"\(\*it_ref\)->as_short_list\(\)\.size\(\)", "ui_short_total((*it_ref))"),
+                 Rule("D6.short-total", r"\bin\.as_short_list\(\)\.size\(\)", "ui_short_total(in)"),
+                 Rule("D6.token-data", r"\(\*it_ref\)->data\(\)", "ui_data((*it_ref))"), Rule("D6.token-data", r"\bin\.data\(\)", "ui_data(in)")]
+    for nm, kind, upd in [("tpo_option", "ooption", "option_update_value"), ("tpo_multi", "omulti", "multi_update_value")]:
+        u.add(F(nm, PAR, r"bool parser::try_parse_as_option\(Options&& options, Iter& it, Iter end\)",
+                "nbool %s(struct %s *options, size_t n_options, const struct user_input **it_ref, const struct user_input *end)" % (nm, kind), P3 + ["C03", "C11"], dflt="0",
+                pre=[Rule("D2.auto", r"\bauto\b", "__auto_type")] + it_rules + tok_calls,
+                rules=[Rule("D10.map-loop", r"for \(__auto_type& option : options\)", "for (size_t k_ = 0; k_ < n_options; ++k_)"),
+                       Rule("D9.matches", r"\boption\.second->matches\(\(\*it_ref\)\)", "base_matches(&options[k_].b, (*it_ref))"),
+                       Rule("D9.update_value", r"\boption\.second->update_value\((\(\*it_ref\)|\*next)\);", lambda mm, upd=upd: "%s(&options[k_], %s); NITRO_PROPAGATE;" % (upd, "next" if "next" in mm.group(1) else "(*it_ref)")),
+                       Rule("D3.local-iterator", r"__auto_type next =", "const struct user_input *next ="),
+                       Rule("D4.raise-arg", r"\boption\.second->name\(\)", "0")],
+                must_fire=["D10.map-loop", "D9.matches", "D9.update_value"], unwind=K + 1, extra_replace=["ui_as_short_list"],
+                harness="""void h_%s(void)
+{
+    struct %s options[NITRO_K]; struct user_input toks[2]; size_t n_options = nondet_size_t();
+    const struct user_input *it = &toks[0];
+    const struct user_input *end = nondet_nbool() ? &toks[1] : (&toks[1]) + 1;
+    NITRO_HAVOC;
+    %s(options, n_options, &it, end);
+    NITRO_CANARIES;
+}
+""" % (nm, kind, nm)))
+    u.add(F("try_parse_as_toggle", PAR, r"bool parser::try_parse_as_toggle\(const user_input& in\)", "nbool try_parse_as_toggle(struct oparser *self, const struct user_input *in)", P3 + ["C11"], dflt="0",
+            pre=[Rule("D2.auto", r"\bauto\b", "__auto_type")] + tok_calls,
+            rules=[Rule("D10.map-loop", r"for \(__auto_type& option : get_all_toggles\(\)\)", "for (size_t k_ = 0; k_ < self->n_toggles; ++k_)"),
+                   Rule("D9.matches", r"\boption\.second->matches\(in\)", "toggle_matches(&self->toggles[k_], in)"),
+                   Rule("D9.update_value", r"\boption\.second->update_value\(in\);", "toggle_update_value(&self->toggles[k_], in); NITRO_PROPAGATE;"),
+                   Rule("D6.short-count", r"\bin\.as_short_list\(\)\.count\(option\.second->short_name\(\)\)", "toggle_short_count(in, base_short_name(&self->toggles[k_].b))")],
+            must_fire=["D10.map-loop", "D9.matches", "D9.update_value"], extra_replace=["ui_as_short_list"], unwind=K + 1))
+    # for_each_option(lambda): three loops over the declared kinds, the lambda spliced once per kind (rule D8)
+    feo = src.find("include/nitro/options/parser.hpp", r"void for_each_option\(F f\)")
+    kinds = re.findall(r"for \(auto& option : get_all_(options|multi_options|toggles)\(\)\)\s*\{\s*f\(\*option\.second\);\s*\}", feo["body"])
+    if kinds != ["options", "multi_options", "toggles"]:
+        raise ExtractionError("for_each_option no longer visits options, multi-options, toggles in this order: %r" % kinds)
+    KINDS = [("opts", "n_opts", "option"), ("mopts", "n_mopts", "multi"), ("toggles", "n_toggles", "toggle")]
+
+    def splice(fname, lam_re, per_kind):
+        d = src.find(PAR, fname)
+        body = re.sub(r"\s+", " ", d["body"]).strip()
+        mm = re.match(lam_re, body)
+        if not mm:
+            raise ExtractionError("%s: body is no longer one for_each_option(lambda) call: %s" % (fname, body[:100]))
+        out = []
+        for arr, n, kind in KINDS:
+            out.append("    for (size_t k_ = 0; k_ < self->%s; ++k_)\n    { %s }\n" % (n, per_kind(mm, arr, kind)))
+        return "\n" + "".join(out)
+    for fn, member in [("prepare_options", "prepare"), ("validate_options", "check")]:
+        text = splice(r"void parser::%s\(\)" % fn, r"^for_each_option\(\[\]\(auto& arg\) \{ arg\.%s\(\); \}\);$" % member,
+                      lambda mm, arr, kind, member=member: "%s_%s(&self->%s[k_]);%s" % (kind, member, arr, " NITRO_PROPAGATE;" if member == "check" else ""))
+
+        class Body:
+            name = "D8.lambda-per-kind"
+
+            def __init__(self, t):
+                self.t = t
+
+            def apply(self, _):
+                return self.t, 1
+        u.add(F("parser_" + fn, PAR, r"void parser::%s\(\)" % fn, "void parser_%s(struct oparser *self)" % fn, ["C03", "C04", "C14"] + (["C01", "C02"] if fn == "validate_options" else []), pre=[Body(text)], unwind=K + 1))
+    cons = splice(r"void parser::check_parser_consistency\(\)",
+                  r"^std::set<std::string> short_names; for_each_option\(\[&short_names\]\(auto& arg\) \{ if \(arg\.has_short_name\(\)\) \{ auto res = short_names\.emplace\(arg\.short_name\(\)\); if \(!res\.second\) \{ raise<parser_error>\(.*\); \} \} \}\);$",
+                  lambda mm, arr, kind: "if (base_has_short_name(&self->%s[k_].b)) { nbool inserted = oletters_emplace(&short_names, base_short_name(&self->%s[k_].b)); if (!inserted) { NITRO_THROW(EXC_PARSER_ERROR); } }" % (arr, arr))
+
+    class ConsBody:
+        name = "D8.lambda-per-kind"
+
+        def apply(self, _):
+            return "\n    struct oletters short_names; oletters_init(&short_names);\n" + cons, 1
+    u.add(F("parser_check_consistency", PAR, r"void parser::check_parser_consistency\(\)", "void parser_check_consistency(struct oparser *self)", ["C13", "C04", "C01"], pre=[ConsBody()], unwind=K + 1))
+    for nm, sig, c in [("parser_greedy_postionals", r"void parser::greedy_postionals\(bool enabled\)", "void parser_greedy_postionals(struct oparser *self, nbool enabled)"),
+                       ("parser_accept_positionals", r"void parser::accept_positionals\(std::size_t amount\)", "void parser_accept_positionals(struct oparser *self, size_t amount)")]:
+        u.add(F(nm, PAR, sig, c, ["C12"], rules=[Rule("D3.members", r"(?<![\w.>])(greedy_positionals_|allowed_positionals_)\b", r"self->\1")]))
+    u.shared_decls += "#define NITRO_K %d\n" % K
     return u
